@@ -71,6 +71,12 @@ func (c *childResult) violation(sig, detail string, witness interface{}) {
 	c.Violations = append(c.Violations, vioRec{sig, detail, witness})
 }
 
+func (c *childResult) numViolations() int {
+	c.mu.Lock()
+	defer c.mu.Unlock()
+	return len(c.Violations)
+}
+
 func (c *childResult) evals(n int64) {
 	c.mu.Lock()
 	c.Evals += n
